@@ -2,7 +2,7 @@
 fragment are exercised), keeping its component / slot / fill structure."""
 
 
-def fragmentize(prog):
+def fragmentize(prog, mode="isolated", keep=()):
     """isolated mode; for -> with (first element bound), provide -> its body, default= aliases dropped, slot tags and
     is_filled tests inside component-tag bodies replaced by text, inject data -> constant."""
     def ex(e, inbody):
@@ -46,13 +46,15 @@ def fragmentize(prog):
             d2 = drop | ({t[3]} if t[3] else set())
             return [("fill", ex(t[1], True), t[2], None, ts(t[4], True, d2))]
         if k == "comp":
-            return [("comp", t[1], kw(t[2], inbody), t[3], ts(t[4], True, drop))]
+            return [("comp", t[1], kw(t[2], inbody), t[3] and mode == "isolated", ts(t[4], True, drop))]
         if k == "provide":
+            if "provide" in keep:
+                return [("provide", t[1], kw(t[2], inbody), ts(t[3], inbody, drop))]
             return ts(t[3], inbody, drop)
         raise ValueError(k)
     q = dict(prog)
-    q["mode"] = "isolated"
+    q["mode"] = mode
     q["page"] = ts(prog["page"], False, set())
     q["lib"] = [(n, {"tpl": ts(cd["tpl"], False, set()),
-                     "data": [(x, d if d[0] != "inject" else ("str", "INJ")) for x, d in cd["data"]]}) for n, cd in prog["lib"]]
+                     "data": [(x, d if (d[0] != "inject" or "provide" in keep) else ("str", "INJ")) for x, d in cd["data"]]}) for n, cd in prog["lib"]]
     return q
